@@ -1328,7 +1328,12 @@ class ContractionTree:
 
         # pre-computed information
         if legs is not None:
-            self.info[parent]["legs"] = legs
+            if len(parent) == self.N:
+                # n.b. the legs of the root are always the output indices in
+                # the declared order, not the order they appear on children
+                self.get_legs(parent)
+            else:
+                self.info[parent]["legs"] = legs
         if cost is not None:
             self.info[parent]["flops"] = cost
         if size is not None:
